@@ -258,9 +258,16 @@ Definition ref_missing (schema : list tschema) (bk : backend) (t : tschema) (td 
   end.
 
 (** DataRow.GetString as used for group keys and string sort keys *)
+(** fmt "%v" of a service member list: [[host description] [host description]] *)
+Definition show_members (l : list (str * str)) : str :=
+  [91] ++ join [32] (map (fun p => [91] ++ fst p ++ [32] ++ snd p ++ [93]) l) ++ [93].
+
 Definition key_text (schema : list tschema) (bk : backend) (t : tschema) (td : tdata) (r : list value) (c : column) : str :=
   if negb (has_flag (b_flags bk) (c_opt c)) || ref_missing schema bk t td r c then show_empty (c_type c)
-  else show_value (get schema bk t td r c).
+  else match c_type c, get schema bk t td r c with
+       | TSvcMemberList, VPairs l => show_members l
+       | _, v => show_value v
+       end.
 
 Definition stats_key (schema : list tschema) (rq : request) (bk : backend) (td : tdata) (r : list value) : list str :=
   map (key_text schema bk (rq_table rq) td r) (request_columns rq).
